@@ -58,12 +58,14 @@ type KMG struct {
 	Hrefs []string `json:"hrefs"`
 }
 type KQCase struct {
-	Q   KQ        `json:"q"`
-	Doc xmlt.Node `json:"doc"`
+	Q       KQ        `json:"q"`
+	Doc     xmlt.Node `json:"doc"`
+	SrvOnly bool      `json:"srvonly"` // a conformant spelling the client never produces: server direction only
 }
 type KMCase struct {
-	M   KMG       `json:"m"`
-	Doc xmlt.Node `json:"doc"`
+	M       KMG       `json:"m"`
+	Doc     xmlt.Node `json:"doc"`
+	SrvOnly bool      `json:"srvonly"`
 }
 
 var instants = map[string]time.Time{
@@ -215,6 +217,9 @@ func runCal(dir string, emit func(interface{}), conc0 *xmlt.Conc, mod, rem int) 
 			mut += len(backends.Mutations([]backends.Call{c}))
 		}
 		emit(map[string]interface{}{"k": "srv", "i": n, "st": s.Code, "panic": s.Panic, "style": style, "got": got, "mut": mut})
+		if cs.SrvOnly {
+			return
+		}
 		ch.body = nil
 		_, err := cl.QueryCalendar(context.Background(), "/u/cal/c/", &caldav.CalendarQuery{CompRequest: kConcCR(conc, cs.Q.Comp), CompFilter: kConcCF(conc, cs.Q.Filter)})
 		cev := map[string]interface{}{"k": "cli", "i": n, "err": err != nil, "sent": ch.body != nil, "doc": []xmlt.Node{}, "wf": true}
@@ -248,6 +253,9 @@ func runCal(dir string, emit func(interface{}), conc0 *xmlt.Conc, mod, rem int) 
 				}
 			}
 			emit(map[string]interface{}{"k": "mgsrv", "i": n, "st": s.Code, "panic": s.Panic, "style": style, "paths": paths, "reqs": reqs})
+		}
+		if cs.SrvOnly {
+			return
 		}
 		ch.body = nil
 		mg := &caldav.CalendarMultiGet{CompRequest: kConcCR(conc, cs.M.Comp)}
